@@ -290,6 +290,7 @@ func genPPTX(r *hx.Rng) *pkg {
 	ids := perm(r, n+6)
 	nnums := perm(r, n+8) // notes parts are numbered independently of slides and positions
 	const tSlide = nsRel + "/slide"
+	pn := r.Fork(0x9c7e) // part names with percent signs (pctnames.go), own stream
 	var rels [][3]string
 	used := map[string]bool{}
 	for k := 0; k < n; k++ {
@@ -328,6 +329,14 @@ func genPPTX(r *hx.Rng) *pkg {
 			d.Name = fmt.Sprintf("custom/slides/c%d.xml", num)
 			d.Ref = "/" + d.Name
 		}
+		if !noRels && !noList && pn.Chance(1, 7) {
+			// the ZIP item name is the part name as the target spells it, percent signs included
+			rel := pctRel(pn, "slides", num)
+			d.Name, d.Ref = "ppt/"+rel, rel
+			if pn.Chance(1, 5) {
+				d.Ref = "/" + d.Name
+			}
+		}
 		if used[d.Name] {
 			continue
 		}
@@ -350,6 +359,16 @@ func genPPTX(r *hx.Rng) *pkg {
 		// missing / malformed / no longer reachable (their notes belong to no page)
 		if d.Name != "" && r.Chance(3, 5) {
 			addNotes(r, &d, 20+k, nnums[k]+1, used)
+			if d.NotesTok != "" && pn.Chance(1, 6) { // a notes part whose name carries percent signs
+				name := "ppt/notesSlides/" + fmt.Sprintf(hx.Pick(pn, pctFileNames), nnums[k]+1)
+				if !used[name] {
+					used[name] = true
+					d.NotesName, d.NotesRef = name, relTarget(dirOf(d.Name), name)
+					if pn.Chance(1, 7) {
+						d.NotesRef = "/" + name
+					}
+				}
+			}
 		}
 		p.Declared = append(p.Declared, d)
 	}
@@ -408,6 +427,15 @@ func genPPTX(r *hx.Rng) *pkg {
 			t.Title = fmt.Sprintf("Heading %c", 'W'+byte(j))
 			if tr.Chance(3, 5) { // its own speaker notes, behind a relationship part whose name is a near-name too
 				addNotes(tr, t, 34+j, nnums[n+4+j]+1, used)
+			}
+		})
+		// a second member under the percent-DECODED name of a declared slide (pctnames.go)
+		pt := pn.Fork(1)
+		p.addPctDecodedTwins(pt, "ppt", tSlide, used, &rels, func(j int, t *part) {
+			t.ID = fmt.Sprintf("rId%d", ids[n+j]+2)
+			t.Title = fmt.Sprintf("Heading %c", 'W'+byte(j))
+			if pt.Chance(1, 2) {
+				addNotes(pt, t, 34+j, nnums[n+4+j]+1, used)
 			}
 		})
 	}
